@@ -244,6 +244,7 @@ func runCheck(repo, verif, prop, tier string, timeout, par int, keep bool) int {
 					isBroken = fmt.Sprintf("vacuity guard %s is unsatisfiable: the contract of %s excludes every execution", o.Name, r.Key)
 				default:
 					vacuityUnknown++
+					fmt.Printf("  note: vacuity guard undecided (%s): %s\n", o.Verdict, o.Name)
 				}
 				continue
 			}
